@@ -29,8 +29,16 @@
 //! and a twin that still agree) or that the DER follows profile rules the
 //! library's decoder does not enforce.
 //!
+//! Two further dimensions are explored in spaces of their own: the FORM in
+//! which a list reaches a builder (`build.input_forms`: Vec, slice, mapped,
+//! filtered, `from_fn`, chained, the decoded twin's own iterator) and
+//! OPERATION SEQUENCES on builders (`build.setter_sequences`: construct with
+//! A, then set B, in every order, once / twice / back and forth); both are
+//! judged differentially against the plainly built object.
+//!
 //! `C05_ONLY=<space>[,<space>]` (cert, crl, sigobj, manifest, roa, aspa, csr,
-//! idcert, sigmsg, cms) restricts a run to some spaces while developing.
+//! idcert, sigmsg, cms, forms, setters) restricts a run to some spaces while
+//! developing.
 
 use std::collections::{BTreeMap, BTreeSet};
 use std::io;
@@ -86,19 +94,21 @@ impl Obs {
 
 /// Entry-by-entry comparison; a panic on either side is a finding even when
 /// both sides panic alike.
-fn diff(built: &Obs, decoded: &Obs) -> Option<String> {
+fn diff(built: &Obs, decoded: &Obs) -> Option<String> { diff_l(built, decoded, "built", "decoded") }
+
+fn diff_l(built: &Obs, decoded: &Obs, la: &str, lb: &str) -> Option<String> {
     let mut out: Vec<String> = Vec::new();
     let mut n = 0;
     if built.0.len() != decoded.0.len() {
-        out.push(format!("{} accessor answers on the built value, {} on the decoded one", built.0.len(), decoded.0.len()));
+        out.push(format!("{} accessor answers on the {la} value, {} on the {lb} one", built.0.len(), decoded.0.len()));
         n += 1;
     }
     for ((na, va), (nb, vb)) in built.0.iter().zip(decoded.0.iter()) {
         let bad = if na != nb { Some(format!("entry order differs: {na} / {nb}")) }
             else if va.starts_with("PANIC") || vb.starts_with("PANIC") {
-                Some(format!("{na}: built={} decoded={}", rpki_verif::trunc(va, 160), rpki_verif::trunc(vb, 160)))
+                Some(format!("{na}: {la}={} {lb}={}", rpki_verif::trunc(va, 160), rpki_verif::trunc(vb, 160)))
             }
-            else if va != vb { Some(format!("{na}: built={} decoded={}", rpki_verif::trunc(va, 160), rpki_verif::trunc(vb, 160))) }
+            else if va != vb { Some(format!("{na}: {la}={} {lb}={}", rpki_verif::trunc(va, 160), rpki_verif::trunc(vb, 160))) }
             else { None };
         if let Some(b) = bad { n += 1; if out.len() < 3 { out.push(b) } }
     }
@@ -1495,6 +1505,470 @@ fn space_cms(ctx: &Ctx, d: &Dom) {
     sp.done(true, &format!("{} input tuples", cases.len()));
 }
 
+
+//============ Input forms ====================================================
+//
+// Wherever a builder takes `impl IntoIterator`, `impl Into<Vec<_>>`, an
+// `Extend` impl or a closure-driven sub-builder, the FORM in which the same
+// list arrives is a dimension of its own: an exact-size Vec, a borrowed
+// slice, a mapped range, a filtered iterator (lower size bound 0), `from_fn`
+// (size hint (0, None)), a chain whose lower bound is positive but too
+// small, and the library's own iterator over the decoded twin (re-issuing
+// an object from a decoded one). Oracle: the object built from any form is
+// octet-identical to the one built from the Vec (signatures are
+// deterministic), answers every accessor like it, and passes the usual
+// decode / re-encode / accessor-agreement / validation oracles itself.
+
+const FORM_NAMES: [&str; 7] = ["vec", "slice.iter.cloned", "range.map", "filter_map(lower bound 0)", "from_fn(0,None)",
+    "flatten.chain(lower bound too small)", "iterator over the decoded twin"];
+
+macro_rules! with_form {
+    ($form:expr, $items:expr, |$it:ident| $body:expr) => {{
+        let items = $items;
+        match $form {
+            0 => { let $it = items.into_iter(); $body }
+            1 => { let v = items; let $it = v.iter().cloned(); $body }
+            2 => { let n = items.len(); let v = items; let $it = (0..n).map(move |i| v[i].clone()); $body }
+            3 => { let padded: Vec<Option<_>> = items.into_iter().flat_map(|x| [None, Some(x)]).collect();
+                   let $it = padded.into_iter().filter_map(|x| x); $body }
+            4 => { let v = items; let mut i = 0usize; let $it = std::iter::from_fn(move || { let r = v.get(i).cloned(); i += 1; r }); $body }
+            _ => { let mut a = items; let b = a.split_off(a.len() / 2);
+                   let pa: Vec<Option<_>> = a.into_iter().flat_map(|x| [Some(x), None]).collect();
+                   let $it = pa.into_iter().flatten().chain(b.into_iter()); $body }
+        }
+    }};
+}
+
+#[derive(Clone, Copy, Debug, PartialEq, Eq)]
+enum FormObj { Manifest, Crl, Roa, Aspa, CertRes }
+
+#[derive(Clone, Debug)]
+struct FormCase { obj: FormObj, list: Vec<usize>, form: usize }
+
+/// Compares a value built another way (other input form, setter sequence)
+/// with the reference built the plain way (from a Vec / directly).
+fn form_check(r: &mut CaseResult, ref_bytes: &[u8], bytes: &[u8], ref_obs: &Obs, obs: &Obs) {
+    if ref_bytes != bytes {
+        let pos = bytes.iter().zip(ref_bytes.iter()).position(|(a, b)| a != b).unwrap_or(bytes.len().min(ref_bytes.len()));
+        r.fail("form_independent", format!("encoding differs from the reference (built from a Vec / constructed directly): {} vs {} octets, first difference at {pos}", bytes.len(), ref_bytes.len()));
+    }
+    if let Some(x) = diff_l(ref_obs, obs, "reference", "this") { r.fail("form_independent", format!("reference vs this way of building: {x}")) }
+}
+
+fn space_forms(ctx: &Ctx, d: &Dom) {
+    let sp = ctx.space("build.input_forms",
+        "the same list handed to ManifestContent::new, TbsCertList::new/into_crl, RoaIpAddressesBuilder::extend, AspaBuilder::new (Into<Vec>) and TbsCert::{v4,v6,as}_resources_from_iter / build_*_resource_blocks in 7 forms (Vec, borrowed slice, mapped range, filter_map with lower size bound 0, from_fn with size hint (0, None), chain with a too small lower bound, the library's iterator over the decoded twin) plus closure-driven push/extend for resources: every sequence of 0-3 out of 3 entries (resources: every ordered atom selection); the result must be octet-identical to the Vec-built object, answer every accessor like it, and pass decode / re-encode / accessor agreement / validation itself; non-trivial = distinct DER; outcome = object kind + form");
+    let files = mft_files();
+    let a4 = roa_alphabet(true); let a6 = roa_alphabet(false);
+    let crl_ent: Vec<CrlEntry> = vec![CrlEntry::new(d.serials[3].1, d.instants[3]), CrlEntry::new(d.serials[0].1, d.instants[0]), CrlEntry::new(d.serials[5].1, pki::time(pki::T0))];
+    let provs = [1u32, 65536, 4294967295];
+    let so = SoSpec::base();
+    let base_uri = d.dirs[1].clone();
+    let probes: Vec<Serial> = d.serials.iter().map(|s| s.1).collect();
+    let mut cases = vec![];
+    for obj in [FormObj::Manifest, FormObj::Crl, FormObj::Roa, FormObj::Aspa] {
+        for l in sequences(3, 0, 3) { for form in 0..7 {
+            if obj == FormObj::Roa && l.is_empty() { continue }
+            if obj == FormObj::Aspa && (l.is_empty() || (1..l.len()).any(|i| l[..i].contains(&l[i]))) { continue }
+            cases.push(FormCase { obj, list: l.clone(), form });
+        }}
+    }
+    for o in res_orders() { if let ResCh::Blocks(l) = o { for form in 0..9 { cases.push(FormCase { obj: FormObj::CertRes, list: l.clone(), form }) } } }
+    let form_name = |c: &FormCase| if c.form < 7 { FORM_NAMES[c.form] } else if c.form == 7 { "build_*_resource_blocks(push)" } else { "build_*_resource_blocks(extend filter_map)" };
+    run_cases(ctx, &sp, "forms", &cases,
+        |c| format!("{:?} list={:?} form={}", c.obj, c.list, form_name(c)),
+        |c| {
+            let mut r = CaseResult::default();
+            r.label = format!("{:?} {}", c.obj, form_name(c));
+            let signer = so.signer(d);
+            let res = guard(|| -> Result<(), String> {
+                match c.obj {
+                    FormObj::Manifest => {
+                        let items: Vec<FileAndHash<Vec<u8>, Vec<u8>>> = c.list.iter().map(|&i| FileAndHash::new(files[i].0.clone(), files[i].1.clone())).collect();
+                        let mk = |content: ManifestContent| content.into_manifest(so.builder(d), &signer, &Kid(0)).map_err(|e| e.to_string());
+                        let head = (d.serials[3].1, d.instants[1], d.instants[3], DigestAlgorithm::sha256());
+                        let reference = ManifestContent::new(head.0, head.1, head.2, head.3, items.clone());
+                        let ref_obs = obs_mft_content(&reference, &base_uri);
+                        let ref_built = mk(reference)?;
+                        let ref_bytes = ref_built.to_captured().as_slice().to_vec();
+                        let content = if c.form == 6 {
+                            let twin_ = Manifest::decode(ref_bytes.as_slice(), true).map_err(|e| e.to_string())?;
+                            ManifestContent::new(head.0, head.1, head.2, head.3, twin_.content().iter())
+                        } else { with_form!(c.form, items, |it| ManifestContent::new(head.0, head.1, head.2, head.3, it)) };
+                        let obs = obs_mft_content(&content, &base_uri);
+                        let built = mk(content)?;
+                        let Some((bytes, _)) = twin(&mut r, &built, |m| m.to_captured().as_slice().to_vec(),
+                            |b| Manifest::decode(b, true).map_err(|e| e.to_string()), |m| obs_manifest(m, &base_uri)) else { return Ok(()) };
+                        form_check(&mut r, &ref_bytes, &bytes, &ref_obs, &obs);
+                        validate_signed(d, &mut r, &bytes, &so);
+                    }
+                    FormObj::Crl => {
+                        let items: Vec<CrlEntry> = c.list.iter().map(|&i| crl_ent[i]).collect();
+                        macro_rules! tbs { ($rc:expr) => { TbsCertList::new(RpkiSignatureAlgorithm::default(), d.issuer_name(1, 0), d.instants[1], d.instants[3], $rc,
+                            d.signer.public(0).key_identifier(), d.serials[3].1) } }
+                        let ref_built = tbs!(items.clone()).into_crl(&d.signer, &Kid(0)).map_err(|e| e.to_string())?;
+                        let ref_bytes = ref_built.to_captured().as_slice().to_vec();
+                        let built = if c.form == 6 {
+                            let twin_ = Crl::decode(ref_bytes.as_slice()).map_err(|e| e.to_string())?;
+                            tbs!(twin_.revoked_certs().iter()).into_crl(&d.signer, &Kid(0)).map_err(|e| e.to_string())?
+                        } else { with_form!(c.form, items, |it| tbs!(it).into_crl(&d.signer, &Kid(0)).map_err(|e| e.to_string()))? };
+                        let Some((bytes, decoded)) = twin(&mut r, &built, |m| m.to_captured().as_slice().to_vec(),
+                            |b| Crl::decode(b).map_err(|e| e.to_string()), |x| obs_crl(x, &probes)) else { return Ok(()) };
+                        form_check(&mut r, &ref_bytes, &bytes, &obs_crl(&ref_built, &probes), &obs_crl(&built, &probes));
+                        if let Err(e) = decoded.verify_signature(&d.signer.public(0)) { r.fail("validate", e.to_string()) }
+                    }
+                    FormObj::Roa => {
+                        let l4: Vec<RoaIpAddress> = c.list.iter().map(|&i| a4[i]).collect();
+                        let l6: Vec<RoaIpAddress> = c.list.iter().rev().map(|&i| a6[i]).collect();
+                        let mut rb = RoaBuilder::new(Asn::from_u32(65536));
+                        for x in &l4 { rb.push_v4(*x) } for x in &l6 { rb.push_v6(*x) }
+                        let ref_built = rb.finalize(so.builder(d), &signer, &Kid(0)).map_err(|e| e.to_string())?;
+                        let ref_bytes = ref_built.to_captured().as_slice().to_vec();
+                        let mut b = RoaBuilder::new(Asn::from_u32(65536));
+                        if c.form == 6 {
+                            let twin_ = Roa::decode(ref_bytes.as_slice(), true).map_err(|e| e.to_string())?;
+                            b.v4_mut().extend(twin_.content().v4_addrs().iter());
+                            b.v6_mut().extend(twin_.content().v6_addrs().iter());
+                        } else {
+                            with_form!(c.form, l4, |it| b.v4_mut().extend(it));
+                            with_form!(c.form, l6, |it| b.v6_mut().extend(it));
+                        }
+                        let built = b.finalize(so.builder(d), &signer, &Kid(0)).map_err(|e| e.to_string())?;
+                        let Some((bytes, decoded)) = twin(&mut r, &built, |m| m.to_captured().as_slice().to_vec(),
+                            |b| Roa::decode(b, true).map_err(|e| e.to_string()), obs_roa) else { return Ok(()) };
+                        form_check(&mut r, &ref_bytes, &bytes, &obs_roa(&ref_built), &obs_roa(&built));
+                        validate_signed(d, &mut r, &bytes, &so);
+                        if let Err(e) = decoded.process(&d.ta, true, |_| Ok(())) { r.fail("validate", format!("Roa::process: {e}")) }
+                    }
+                    FormObj::Aspa => {
+                        let items: Vec<Asn> = c.list.iter().map(|&i| Asn::from_u32(provs[i])).collect();
+                        let cust = Asn::from_u32(0);
+                        let fin = |b: AspaBuilder| b.finalize(so.builder(d), &signer, &Kid(0)).map_err(|e| e.to_string());
+                        let ref_built = fin(AspaBuilder::new(cust, items.clone()).map_err(|e| e.to_string())?)?;
+                        let ref_bytes = ref_built.to_captured().as_slice().to_vec();
+                        let b = match c.form {
+                            0 => AspaBuilder::new(cust, items),
+                            1 => AspaBuilder::new(cust, items.as_slice()),
+                            2 => AspaBuilder::new(cust, items.into_boxed_slice()),
+                            3 => AspaBuilder::new(cust, std::collections::VecDeque::from(items)),
+                            4 => AspaBuilder::new(cust, std::borrow::Cow::Borrowed(items.as_slice())),
+                            5 => AspaBuilder::new(cust, items.iter().map(|a| Some(*a)).filter_map(|x| x).collect::<Vec<_>>()),
+                            _ => { let twin_ = Aspa::decode(ref_bytes.as_slice(), true).map_err(|e| e.to_string())?;
+                                   AspaBuilder::new(cust, twin_.content().provider_as_set().iter().collect::<Vec<_>>()) }
+                        }.map_err(|e| e.to_string())?;
+                        let built = fin(b)?;
+                        let Some((bytes, decoded)) = twin(&mut r, &built, |m| m.to_captured().as_slice().to_vec(),
+                            |b| Aspa::decode(b, true).map_err(|e| e.to_string()), obs_aspa) else { return Ok(()) };
+                        form_check(&mut r, &ref_bytes, &bytes, &obs_aspa(&ref_built), &obs_aspa(&built));
+                        validate_signed(d, &mut r, &bytes, &so);
+                        if let Err(e) = decoded.process(&d.ta, true, |_| Ok(())) { r.fail("validate", format!("Aspa::process: {e}")) }
+                    }
+                    FormObj::CertRes => {
+                        let ch = ResCh::Blocks(c.list.clone());
+                        let spec = CertSpec { v4: ch.clone(), v6: ch.clone(), asn: ch.clone(), ..CertSpec::base(CKind::Ca) };
+                        let reference = spec.build(d);
+                        let b4: Vec<IpBlock> = pki::ip_blocks(32, &c.list.iter().map(|&i| v4_atoms()[i]).collect::<Vec<_>>()).iter().collect();
+                        let b6: Vec<IpBlock> = pki::ip_blocks(128, &c.list.iter().map(|&i| v6_atoms()[i]).collect::<Vec<_>>()).iter().collect();
+                        let ba: Vec<AsBlock> = pki::as_blocks(&c.list.iter().map(|&i| as_atoms()[i]).collect::<Vec<_>>()).iter().collect();
+                        // the blocks in INSERTION order (the collected chains above are already canonical)
+                        let raw4: Vec<IpBlock> = c.list.iter().map(|&i| pki::ip_blocks(32, &[v4_atoms()[i]]).iter().next().unwrap()).collect();
+                        let raw6: Vec<IpBlock> = c.list.iter().map(|&i| pki::ip_blocks(128, &[v6_atoms()[i]]).iter().next().unwrap()).collect();
+                        let rawa: Vec<AsBlock> = c.list.iter().map(|&i| pki::as_blocks(&[as_atoms()[i]]).iter().next().unwrap()).collect();
+                        let _ = (&b4, &b6, &ba);
+                        let mut t = CertSpec { v4: ResCh::Inherit, v6: ResCh::Missing, asn: ResCh::Inherit, ..spec.clone() }.build(d);
+                        match c.form {
+                            6 => {
+                                let twin_ = Cert::decode(reference.clone().into_cert(&d.signer, &Kid(0)).map_err(|e| e.to_string())?.to_captured().as_slice()).map_err(|e| e.to_string())?;
+                                t.v4_resources_from_iter(twin_.v4_resources().to_blocks().map_err(|e| e.to_string())?.iter());
+                                t.v6_resources_from_iter(twin_.v6_resources().to_blocks().map_err(|e| e.to_string())?.iter());
+                                t.as_resources_from_iter(twin_.as_resources().to_blocks().map_err(|e| e.to_string())?.iter());
+                            }
+                            7 => {
+                                t.build_v4_resource_blocks(|b| for x in &raw4 { b.push(*x) });
+                                t.build_v6_resource_blocks(|b| for x in &raw6 { b.push(*x) });
+                                t.build_as_resource_blocks(|b| for x in &rawa { b.push(*x) });
+                            }
+                            8 => {
+                                t.build_v4_resource_blocks(|b| b.extend(raw4.iter().map(|x| Some(*x)).filter_map(|x| x)));
+                                t.build_v6_resource_blocks(|b| b.extend(raw6.iter().map(|x| Some(*x)).filter_map(|x| x)));
+                                t.build_as_resource_blocks(|b| b.extend(rawa.iter().map(|x| Some(*x)).filter_map(|x| x)));
+                            }
+                            f => {
+                                with_form!(f, raw4, |it| t.v4_resources_from_iter(it));
+                                with_form!(f, raw6, |it| t.v6_resources_from_iter(it));
+                                with_form!(f, rawa, |it| t.as_resources_from_iter(it));
+                            }
+                        }
+                        let ref_obs = obs_tbs(&reference); let obs = obs_tbs(&t);
+                        let ref_bytes = cap(reference.encode_ref()); let tb = cap(t.encode_ref());
+                        form_check(&mut r, &ref_bytes, &tb, &ref_obs, &obs);
+                        let built = t.into_cert(&d.signer, &Kid(0)).map_err(|e| e.to_string())?;
+                        let Some((_, decoded)) = twin(&mut r, &built, |c| c.to_captured().as_slice().to_vec(),
+                            |b| Cert::decode(b).map_err(|e| e.to_string()), obs_cert) else { return Ok(()) };
+                        if let Err(e) = validate_cert(d, CKind::Ca, &decoded, d.instants[spec.win.0]) { r.fail("validate", e) }
+                    }
+                }
+                Ok(())
+            });
+            match res { Ok(Ok(())) => {}, Ok(Err(e)) => r.fail("build", e), Err(p) => r.fail("build", p) }
+            r
+        });
+    sp.done(true, &format!("{} (object, list, form) triples", cases.len()));
+}
+
+
+//============ Operation sequences on builders ================================
+//
+// Every public setter of every builder: the object reached by "construct
+// with value A, then set B" must be octet-identical to the object constructed
+// directly with B (differential, nothing written down by hand), answer every
+// accessor like it, and validate. For every set of 1-3 fields, every order
+// of their setters, and three patterns per setter: once, twice, and
+// B-A-B (setting back and forth).
+
+const PATTERN_NAMES: [&str; 3] = ["once", "twice", "B,A,B"];
+
+/// all subsets of size 1..=k of 0..n, each in every order
+fn ordered_subsets(n: usize, k: usize) -> Vec<Vec<usize>> {
+    fn rec(n: usize, k: usize, cur: &mut Vec<usize>, out: &mut Vec<Vec<usize>>) {
+        if !cur.is_empty() { out.push(cur.clone()) }
+        if cur.len() == k { return }
+        for i in 0..n { if !cur.contains(&i) { cur.push(i); rec(n, k, cur, out); cur.pop(); } }
+    }
+    let mut out = vec![]; rec(n, k, &mut vec![], &mut out);
+    out.sort_by(|a, b| a.len().cmp(&b.len()).then(a.cmp(b)));
+    out
+}
+
+fn apply_pattern<T>(t: &mut T, pattern: usize, set_b: &dyn Fn(&mut T), set_a: &dyn Fn(&mut T)) {
+    match pattern { 0 => set_b(t), 1 => { set_b(t); set_b(t) }, _ => { set_b(t); set_a(t); set_b(t) } }
+}
+
+const TBS_FIELDS: [&str; 19] = ["serial_number", "issuer", "validity", "subject", "subject_public_key", "key_usage", "overclaim",
+    "basic_ca", "authority_key_identifier", "extended_key_usage", "crl_uri", "ca_issuer", "ca_repository", "rpki_manifest",
+    "signed_object", "rpki_notify", "v4_resources", "v6_resources", "as_resources"];
+const TBS_CTOR_FIELDS: usize = 7;
+
+/// Copies one field from `src` into `t` through the public setter.
+fn tbs_set(t: &mut TbsCert, f: usize, src: &TbsCert) {
+    match f {
+        0 => t.set_serial_number(src.serial_number()),
+        1 => t.set_issuer(src.issuer().clone()),
+        2 => t.set_validity(src.validity()),
+        3 => t.set_subject(src.subject().clone()),
+        4 => t.set_subject_public_key(src.subject_public_key_info().clone()),
+        5 => t.set_key_usage(src.key_usage()),
+        6 => t.set_overclaim(src.overclaim()),
+        7 => t.set_basic_ca(src.basic_ca()),
+        8 => t.set_authority_key_identifier(src.authority_key_identifier()),
+        9 => t.set_extended_key_usage(src.extended_key_usage().cloned()),
+        10 => t.set_crl_uri(src.crl_uri().cloned()),
+        11 => t.set_ca_issuer(src.ca_issuer().cloned()),
+        12 => t.set_ca_repository(src.ca_repository().cloned()),
+        13 => t.set_rpki_manifest(src.rpki_manifest().cloned()),
+        14 => t.set_signed_object(src.signed_object().cloned()),
+        15 => t.set_rpki_notify(src.rpki_notify().cloned()),
+        16 => if src.v4_resources().is_inherited() { t.set_v4_resources_inherit() } else { t.set_v4_resources(src.v4_resources().clone()) },
+        17 => if src.v6_resources().is_inherited() { t.set_v6_resources_inherit() } else { t.set_v6_resources(src.v6_resources().clone()) },
+        _ => if src.as_resources().is_inherited() { t.set_as_resources_inherit() } else { t.set_as_resources(src.as_resources().clone()) },
+    }
+}
+
+/// A TbsCert that differs from `b` in every one of the 19 fields.
+fn tbs_alternative(d: &Dom, kind: CKind, b: &TbsCert) -> TbsCert {
+    let spec = CertSpec { kind, serial: 5, win: (0, 4), issuer_name: 2, subject_name: 1, uris: [3, 3, 3, 3], notify: 1,
+        v4: ResCh::Blocks(vec![3]), v6: ResCh::Blocks(vec![0, 1]), asn: ResCh::Blocks(vec![0]), overclaim: Overclaim::Trim, subject_key: 4, ta_aki: false };
+    let mut a = spec.build(d);
+    a.set_key_usage(if b.key_usage() == KeyUsage::Ca { KeyUsage::Ee } else { KeyUsage::Ca });
+    a.set_basic_ca(if b.basic_ca() == Some(true) { None } else { Some(true) });
+    a.set_authority_key_identifier(Some(d.signer.public(5).key_identifier()));
+    a.set_extended_key_usage(Some(ExtendedKeyUsage::create_router()));
+    a.set_crl_uri(Some(d.crls[3].clone())); a.set_ca_issuer(Some(d.cers[3].clone()));
+    a.set_ca_repository(Some(d.dirs[3].clone())); a.set_rpki_manifest(Some(d.mfts[3].clone()));
+    a.set_signed_object(Some(d.objs[3].clone())); a.set_rpki_notify(d.https[1].clone());
+    a
+}
+
+#[derive(Clone, Debug)]
+struct SetCase { target: u8, fields: Vec<usize>, pattern: usize }
+
+fn space_setters(ctx: &Ctx, d: &Dom) {
+    let sp = ctx.space("build.setter_sequences",
+        "construct with value A, then set B, against direct construction with B: TbsCert as CA / EE / TA (19 fields: 7 constructor arguments + 12 extension setters, resources also through set_*_resources_inherit), TbsCertList (6), SignedObjectBuilder (11), RoaBuilder (set_as_id / with_addresses / push order): every set of 1-3 fields (EE, TA quick: 1-2) in every setter order x {once, twice, B-A-B} (sets of 3: once; thorough: all three); the result must be octet-identical to the directly constructed object and answer every accessor like it; objects reached through <= 2 setters are also signed, decoded and validated (with equal octets the outcome for 3 is that of the direct object); non-trivial = distinct (target, field set) pairs; outcome = target + number of setters");
+    let thorough = ctx.tier.is_thorough();
+    let kinds = [CKind::Ca, CKind::Ee, CKind::Ta];
+    let mut cases: Vec<SetCase> = vec![];
+    for (ti, _) in kinds.iter().enumerate() {
+        let k = if ti == 0 || thorough { 3 } else { 2 };
+        for f in ordered_subsets(TBS_FIELDS.len(), k) { for p in 0..3 { if f.len() < 3 || p == 0 || thorough { cases.push(SetCase { target: ti as u8, fields: f.clone(), pattern: p }) } } }
+    }
+    const CRL_FIELDS: [&str; 6] = ["issuer", "this_update", "next_update", "revoked_certs", "authority_key_identifier", "crl_number"];
+    for f in ordered_subsets(CRL_FIELDS.len(), 3) { for p in 0..3 { cases.push(SetCase { target: 3, fields: f.clone(), pattern: p }) } }
+    const SO_FIELDS: [&str; 11] = ["serial_number", "validity", "crl_uri", "ca_issuer", "signed_object", "issuer", "subject", "v4_resources", "v6_resources", "as_resources", "signing_time"];
+    const SO_CTOR: usize = 5;
+    for f in ordered_subsets(SO_FIELDS.len(), 3) { for p in 0..3 { if f.len() < 3 || p == 0 || thorough { cases.push(SetCase { target: 4, fields: f.clone(), pattern: p }) } } }
+    // RoaBuilder: `fields` = the variant, `pattern` = the address list
+    for variant in 0..6 { for list in 0..6 { cases.push(SetCase { target: 5, fields: vec![variant], pattern: list }) } }
+
+    // direct objects and alternatives, once
+    let directs: Vec<TbsCert> = kinds.iter().map(|k| CertSpec::base(*k).build(d)).collect();
+    let alts: Vec<TbsCert> = kinds.iter().zip(directs.iter()).map(|(k, b)| tbs_alternative(d, *k, b)).collect();
+    let direct_bytes: Vec<Vec<u8>> = directs.iter().map(|t| cap(t.encode_ref())).collect();
+    for ((k, a), b) in kinds.iter().zip(alts.iter()).zip(directs.iter()) {
+        let (oa, ob) = (obs_tbs(a), obs_tbs(b));
+        for f in 0..TBS_FIELDS.len() {
+            // the alternative really differs in every field (else a setter would be exercised vacuously)
+            let name = match f { 4 => "subject_public_key_info", 16 => "v4_resources", 17 => "v6_resources", 18 => "as_resources", _ => TBS_FIELDS[f] };
+            let va = oa.0.iter().find(|x| x.0 == name).map(|x| &x.1); let vb = ob.0.iter().find(|x| x.0 == name).map(|x| &x.1);
+            if va.is_none() || va == vb { ctx.machinery_error(format!("setter space: alternative TbsCert for {k:?} does not differ in {name}")) }
+        }
+    }
+    let target_names = ["TbsCert(CA)", "TbsCert(EE)", "TbsCert(TA)", "TbsCertList", "SignedObjectBuilder", "RoaBuilder"];
+    let so_b = SoSpec::base();
+    let so_a = SoSpec { serial: 5, win: (0, 4), issuer_name: 2, subject_name: 1, uris: [3, 3, 3], signing: 0, one_off: 7 };
+    let probes: Vec<Serial> = d.serials.iter().map(|s| s.1).collect();
+    let a4 = roa_alphabet(true); let a6 = roa_alphabet(false);
+    let roa_lists: [(&[usize], &[usize]); 6] = [(&[0], &[]), (&[], &[1]), (&[1, 0], &[0]), (&[2, 1, 0], &[3, 1]), (&[0, 0], &[5, 9]), (&[9, 5, 3], &[4, 0, 0])];
+    let obs_sob = |b: &SignedObjectBuilder| { let mut o = Obs::new();
+        o.put("digest_algorithm", || format!("{:?}", b.digest_algorithm())); o.put("serial_number", || b.serial_number().to_string());
+        o.put("validity", || r_validity(b.validity())); o.put("issuer", || format!("{:?}", b.issuer().map(r_name))); o.put("subject", || format!("{:?}", b.subject().map(r_name)));
+        o.put("crl_uri", || r_rsync(Some(b.crl_uri()))); o.put("ca_issuer", || r_rsync(Some(b.ca_issuer()))); o.put("signed_object", || r_rsync(Some(b.signed_object())));
+        o.put("v4_resources", || r_ipres(b.v4_resources(), true)); o.put("v6_resources", || r_ipres(b.v6_resources(), false)); o.put("has_ip_resources", || b.has_ip_resources().to_string());
+        o.put("as_resources", || r_asres(b.as_resources())); o.put("signing_time", || r_time(b.signing_time())); o };
+
+    run_cases(ctx, &sp, "setters", &cases,
+        |c| match c.target {
+            0..=2 => format!("{} construct with A then set {} pattern={}", target_names[c.target as usize], c.fields.iter().map(|&f| TBS_FIELDS[f]).collect::<Vec<_>>().join(" -> "), PATTERN_NAMES[c.pattern]),
+            3 => format!("TbsCertList construct with A then set {} pattern={}", c.fields.iter().map(|&f| CRL_FIELDS[f]).collect::<Vec<_>>().join(" -> "), PATTERN_NAMES[c.pattern]),
+            4 => format!("SignedObjectBuilder construct with A then set {} pattern={}", c.fields.iter().map(|&f| SO_FIELDS[f]).collect::<Vec<_>>().join(" -> "), PATTERN_NAMES[c.pattern]),
+            _ => format!("RoaBuilder variant={} list#{}", ["new(A),set_as_id(B),push", "push,set_as_id(B)", "with_addresses", "push v6 before v4", "set_as_id(A),set_as_id(B)", "interleaved push, set_as_id in the middle"][c.fields[0]], c.pattern),
+        },
+        |c| {
+            let mut r = CaseResult::default();
+            r.label = format!("{} {} setters", target_names[c.target as usize], c.fields.len());
+            let mut key: Vec<usize> = c.fields.clone(); key.sort();
+            r.der_hash = fnv(format!("{}{:?}", c.target, key).as_bytes());
+            let res = guard(|| -> Result<(), String> {
+                match c.target {
+                    0..=2 => {
+                        let ti = c.target as usize; let kind = kinds[ti];
+                        let (b, a) = (&directs[ti], &alts[ti]);
+                        let pick = |f: usize| if c.fields.contains(&f) { a } else { b };
+                        // constructor arguments: A where the field is going to be set, B elsewhere
+                        let mut t = TbsCert::new(pick(0).serial_number(), pick(1).issuer().clone(), pick(2).validity(), Some(pick(3).subject().clone()),
+                            pick(4).subject_public_key_info().clone(), pick(5).key_usage(), pick(6).overclaim());
+                        for f in TBS_CTOR_FIELDS..TBS_FIELDS.len() { tbs_set(&mut t, f, pick(f)) }
+                        for &f in &c.fields { apply_pattern(&mut t, c.pattern, &|t| tbs_set(t, f, b), &|t| tbs_set(t, f, a)) }
+                        let tb = cap(t.encode_ref());
+                        form_check(&mut r, &direct_bytes[ti], &tb, &obs_tbs(b), &obs_tbs(&t));
+                        if c.fields.len() <= 2 {
+                            let key = if kind == CKind::Ta { 0 } else { 0 };
+                            let built = t.into_cert(&d.signer, &Kid(key)).map_err(|e| e.to_string())?;
+                            let Some((_, decoded)) = twin(&mut r, &built, |c| c.to_captured().as_slice().to_vec(),
+                                |x| Cert::decode(x).map_err(|e| e.to_string()), obs_cert) else { return Ok(()) };
+                            if let Err(e) = validate_cert(d, kind, &decoded, d.instants[1]) { r.fail("validate", format!("decoded twin: {e}")) }
+                            if let Err(e) = validate_cert(d, kind, &built, d.instants[1]) { r.fail("validate", format!("built value: {e}")) }
+                        }
+                    }
+                    3 => {
+                        let ent_b: Vec<CrlEntry> = vec![CrlEntry::new(d.serials[3].1, d.instants[3]), CrlEntry::new(d.serials[0].1, d.instants[0])];
+                        let ent_a: Vec<CrlEntry> = vec![CrlEntry::new(d.serials[5].1, d.instants[4])];
+                        let mk = |which: &dyn Fn(usize) -> bool| TbsCertList::new(RpkiSignatureAlgorithm::default(),
+                            if which(0) { d.issuer_name(2, 0) } else { d.issuer_name(1, 0) },
+                            if which(1) { d.instants[0] } else { d.instants[1] }, if which(2) { d.instants[4] } else { d.instants[3] },
+                            if which(3) { ent_a.clone() } else { ent_b.clone() },
+                            if which(4) { d.signer.public(5).key_identifier() } else { d.signer.public(0).key_identifier() },
+                            if which(5) { d.serials[5].1 } else { d.serials[3].1 });
+                        let set = |t: &mut TbsCertList<Vec<CrlEntry>>, f: usize, alt: bool| match f {
+                            0 => t.set_issuer(if alt { d.issuer_name(2, 0) } else { d.issuer_name(1, 0) }),
+                            1 => t.set_this_update(if alt { d.instants[0] } else { d.instants[1] }),
+                            2 => t.set_next_update(if alt { d.instants[4] } else { d.instants[3] }),
+                            3 => if alt { t.set_revoked_certs(ent_a.clone()) } else if t.revoked_certs().len() == 1 { let m = t.revoked_certs_mut(); m.clear(); m.extend(ent_b.iter().copied()) } else { t.set_revoked_certs(ent_b.clone()) },
+                            4 => t.set_authority_key_identifier(if alt { d.signer.public(5).key_identifier() } else { d.signer.public(0).key_identifier() }),
+                            _ => t.set_crl_number(if alt { d.serials[5].1 } else { d.serials[3].1 }),
+                        };
+                        let direct = mk(&|_| false).into_crl(&d.signer, &Kid(0)).map_err(|e| e.to_string())?;
+                        let mut t = mk(&|f| c.fields.contains(&f));
+                        t.set_signature(RpkiSignatureAlgorithm::default());
+                        for &f in &c.fields { apply_pattern(&mut t, c.pattern, &|t| set(t, f, false), &|t| set(t, f, true)) }
+                        let built = t.into_crl(&d.signer, &Kid(0)).map_err(|e| e.to_string())?;
+                        let Some((bytes, decoded)) = twin(&mut r, &built, |m| m.to_captured().as_slice().to_vec(),
+                            |x| Crl::decode(x).map_err(|e| e.to_string()), |x| obs_crl(x, &probes)) else { return Ok(()) };
+                        form_check(&mut r, direct.to_captured().as_slice(), &bytes, &obs_crl(&direct, &probes), &obs_crl(&built, &probes));
+                        if let Err(e) = decoded.verify_signature(&d.signer.public(0)) { r.fail("validate", e.to_string()) }
+                    }
+                    4 => {
+                        let res_b = (pki::ip_res(32, &ResCh::Blocks(vec![0, 2]).claim(&v4_atoms())), IpResources::inherit(), pki::as_res(&ResCh::Blocks(vec![1]).claim(&as_atoms())));
+                        let res_a = (IpResources::inherit(), pki::ip_res(128, &ResCh::Blocks(vec![3]).claim(&v6_atoms())), AsResources::inherit());
+                        let signer = so_b.signer(d);
+                        let set = |t: &mut SignedObjectBuilder, f: usize, alt: bool| { let s = if alt { &so_a } else { &so_b }; let rs = if alt { &res_a } else { &res_b }; match f {
+                            0 => t.set_serial_number(d.serials[s.serial].1), 1 => t.set_validity(d.validity(s.win)),
+                            2 => t.set_crl_uri(d.crls[s.uris[0]].clone()), 3 => t.set_ca_issuer(d.cers[s.uris[1]].clone()), 4 => t.set_signed_object(d.objs[s.uris[2]].clone()),
+                            5 => t.set_issuer(d.name_opt(s.issuer_name)), 6 => t.set_subject(d.name_opt(s.subject_name)),
+                            7 => if rs.0.is_inherited() { t.set_v4_resources_inherit() } else { t.set_v4_resources(rs.0.clone()) },
+                            8 => if rs.1.is_inherited() { t.set_v6_resources_inherit() } else { t.set_v6_resources(rs.1.clone()) },
+                            9 => if rs.2.is_inherited() { t.set_as_resources_inherit() } else { t.set_as_resources(rs.2.clone()) },
+                            _ => t.set_signing_time(d.instants[s.signing]),
+                        } };
+                        let mut direct = so_b.builder(d);
+                        for f in 7..10 { set(&mut direct, f, false) }
+                        let pick = |f: usize| if c.fields.contains(&f) { &so_a } else { &so_b };
+                        let mut t = SignedObjectBuilder::new(d.serials[pick(0).serial].1, d.validity(pick(1).win), d.crls[pick(2).uris[0]].clone(),
+                            d.cers[pick(3).uris[1]].clone(), d.objs[pick(4).uris[2]].clone());
+                        t.set_digest_algorithm(DigestAlgorithm::sha256());
+                        for f in SO_CTOR..SO_FIELDS.len() { set(&mut t, f, c.fields.contains(&f)) }
+                        for &f in &c.fields { apply_pattern(&mut t, c.pattern, &|t| set(t, f, false), &|t| set(t, f, true)) }
+                        if let Some(x) = diff_l(&obs_sob(&direct), &obs_sob(&t), "direct", "set") { r.fail("form_independent", format!("builder state, direct vs set: {x}")) }
+                        if c.fields.len() <= 2 {
+                            let ct = || Oid(Bytes::copy_from_slice(&der::oid(&[1, 2, 840, 113549, 1, 9, 16, 1, 35])[2..]));
+                            let content = Bytes::from(der::seq(&[der::int_u(7)]));
+                            let dir = direct.finalize(ct(), content.clone(), &signer, &Kid(0)).map_err(|e| e.to_string())?;
+                            let built = t.finalize(ct(), content, &signer, &Kid(0)).map_err(|e| e.to_string())?;
+                            let Some((bytes, _)) = twin(&mut r, &built, |s| cap(s.encode_ref()), |x| SignedObject::decode(x, true).map_err(|e| e.to_string()), obs_sigobj) else { return Ok(()) };
+                            form_check(&mut r, &cap(dir.encode_ref()), &bytes, &obs_sigobj(&dir), &obs_sigobj(&built));
+                            validate_signed(d, &mut r, &bytes, &so_b);
+                        }
+                    }
+                    _ => {
+                        let (i4, i6) = roa_lists[c.pattern];
+                        let l4: Vec<RoaIpAddress> = i4.iter().map(|&i| a4[i]).collect(); let l6: Vec<RoaIpAddress> = i6.iter().map(|&i| a6[i]).collect();
+                        let (asn_a, asn_b) = (Asn::from_u32(4294967295), Asn::from_u32(65536));
+                        let signer = so_b.signer(d);
+                        let mut direct = RoaBuilder::new(asn_b);
+                        for x in &l4 { direct.push_v4(*x) } for x in &l6 { direct.push_v6(*x) }
+                        let mut t = match c.fields[0] {
+                            0 => { let mut t = RoaBuilder::new(asn_a); t.set_as_id(asn_b); for x in &l4 { t.push_v4(*x) } for x in &l6 { t.push_v6(*x) } t }
+                            1 => { let mut t = RoaBuilder::new(asn_a); for x in &l4 { t.push_v4(*x) } for x in &l6 { t.push_v6(*x) } t.set_as_id(asn_b); t }
+                            2 => { let mut b4 = rpki::repository::roa::RoaIpAddressesBuilder::new(); b4.extend_from_slice(&l4);
+                                   let mut b6 = rpki::repository::roa::RoaIpAddressesBuilder::default(); for x in &l6 { b6.push(*x) }
+                                   RoaBuilder::with_addresses(asn_b, b4, b6) }
+                            3 => { let mut t = RoaBuilder::new(asn_b); for x in &l6 { t.push_v6(*x) } for x in &l4 { t.push_v4(*x) } t }
+                            4 => { let mut t = RoaBuilder::new(asn_b); t.set_as_id(asn_a); t.set_as_id(asn_b); t.extend_v4_from_slice(&l4); t.extend_v6_from_slice(&l6); t }
+                            _ => { let mut t = RoaBuilder::new(asn_a); let n = l4.len().max(l6.len());
+                                   for i in 0..n { if let Some(x) = l6.get(i) { t.v6_mut().push(*x) } if i == n / 2 { t.set_as_id(asn_b) } if let Some(x) = l4.get(i) { t.v4_mut().push(*x) } }
+                                   t.set_as_id(asn_b); t }
+                        };
+                        let _ = &mut t;
+                        if t.as_id() != direct.as_id() { r.fail("form_independent", "RoaBuilder::as_id differs") }
+                        let att = |b: &RoaBuilder| { let mut o = obs_roa_content(&b.to_attestation()); o.put("v4.to_resources", || r_ipres(&b.v4().to_resources(), true));
+                            o.put("v6.to_resources", || r_ipres(&b.v6().to_resources(), false)); o.put("v4.encode_ref", || hx(&cap(b.v4().encode_ref()))); o };
+                        if let Some(x) = diff_l(&att(&direct), &att(&t), "direct", "sequence") { r.fail("form_independent", format!("builder state, direct vs sequence: {x}")) }
+                        let dir = direct.finalize(so_b.builder(d), &signer, &Kid(0)).map_err(|e| e.to_string())?;
+                        let built = t.finalize(so_b.builder(d), &signer, &Kid(0)).map_err(|e| e.to_string())?;
+                        let Some((bytes, decoded)) = twin(&mut r, &built, |m| m.to_captured().as_slice().to_vec(), |x| Roa::decode(x, true).map_err(|e| e.to_string()), obs_roa) else { return Ok(()) };
+                        form_check(&mut r, dir.to_captured().as_slice(), &bytes, &obs_roa(&dir), &obs_roa(&built));
+                        validate_signed(d, &mut r, &bytes, &so_b);
+                        if let Err(e) = decoded.process(&d.ta, true, |_| Ok(())) { r.fail("validate", format!("Roa::process: {e}")) }
+                    }
+                }
+                Ok(())
+            });
+            match res { Ok(Ok(())) => {}, Ok(Err(e)) => r.fail("build", e), Err(p) => r.fail("build", p) }
+            r
+        });
+    sp.done(true, &format!("{} setter sequences", cases.len()));
+}
+
 fn main() {
     let ctx = Ctx::new("C05", "exploration");
     ctx.assume("aws-lc RSA/ECDSA and SHA-256 are correct; keys come from the fixed pool in /verif/keys");
@@ -1513,5 +1987,7 @@ fn main() {
     if want("idcert") { space_idcert(&ctx, &d) }
     if want("sigmsg") { space_sigmsg(&ctx, &d) }
     if want("cms") { space_cms(&ctx, &d) }
+    if want("forms") { space_forms(&ctx, &d) }
+    if want("setters") { space_setters(&ctx, &d) }
     ctx.finish();
 }
